@@ -256,6 +256,10 @@ func WriteExtendedForgeShort(wr io.Writer, toWrite int) (err error) {
 
 // WriteUTF util function as exists in Java
 func WriteUTF(wr io.Writer, s string) error {
+	if len(s) > math.MaxUint16 {
+		// the length prefix is an unsigned short (java.io.DataOutput#writeUTF refuses such a string too)
+		return fmt.Errorf("cannot write UTF string longer than %d bytes (got %d bytes)", math.MaxUint16, len(s))
+	}
 	err := WriteUint16(wr, uint16(len(s)))
 	if err != nil {
 		return err
